@@ -41,6 +41,8 @@ def inline(rng: random.Random, depth=0, hazards=True) -> str:
     if r < 0.71:
         return rng.choice(["`code`", "`a b`", "``x ` y``", "`` ` ``", "`it's \"q\"...`", "`|`"])
     if r < 0.75 and depth < 2:
+        if depth > 0 and "nested_bracket_links" in AVOID:
+            return w()
         t = inline_seq(rng, rng.randint(1, 2), depth + 1, hazards=False)
         return rng.choice([f"[{t}](http://ex.com/a_b)", f"[{t}](/u \"Title\")", f"[{t}](<u v> 'T t')", f"[{t}][ref]", "[ref]", f"[{t}](u \"a \\\"b\\\" c\")",
                            # same destination as a definition the generator may emit, with the same, another or no title
